@@ -594,9 +594,11 @@ public:
     return *this;
   }
 
+  // return true if e is a member of the set
   bool at(const element_t &e) const{
     dual_set_domain_t s(e);
-    return (s <= *this);
+    // in the dual order the larger is the set the smaller is the value
+    return (*this <= s);
   }
   
   std::size_t size() { return m_set.size(); }
